@@ -270,7 +270,66 @@ def classify(prop, names):
     return name, kind
 
 
+def run_lemma_job(job, tier='quick'):
+    """plain (non-dfcc) lemma harnesses: one cbmc run per entry function, loop-free, full-domain symbolic inputs"""
+    import concurrent.futures
+    t0 = time.time()
+    res = dict(job=job['name'], status='error', obligations=[], notes=[], cmds=[], secs=0, meta=dict(functions=[], fired={}))
+    src = os.path.join(ROOT, job['source'])
+    real = job.get('real', 'double')
+    txt = open(src).read()
+    entries = job.get('entries')
+    if entries is None:
+        # expand the fact tables with the C preprocessor and collect the lemma functions
+        pp = B1._run(['gcc', '-E', '-P', '-DVP_CBMC', '-DVP_REAL=' + real, '-I' + PRELUDE, '-x', 'c', src], 60)
+        entries = re.findall(r'void (lemma_\w+)\(void\)', pp['out'])
+    timeout = job.get('timeout', {}).get(tier, 120 if tier == 'quick' else 900)
+
+    def one(entry):
+        gb = os.path.join(OUT, '%s_%s_%s.gb' % (job['name'], entry, real))
+        r = B1._run(['goto-cc', '-DVP_CBMC', '-DVP_REAL=' + real, '-I' + PRELUDE, '-I' + ROOT, '--function', entry, src, '-o', gb], 120)
+        if r['rc'] != 0:
+            return entry, None, r
+        rs = B1.portfolio([dict(label=s, igb=gb, solver=s, extra=['--nan-check'] if False else []) for s in job.get('solvers', ['cvc5', 'cadical'])],
+                          timeout, need_all=False)
+        return entry, rs, r
+    with concurrent.futures.ThreadPoolExecutor(max_workers=job.get('workers', 6)) as ex:
+        for entry, rs, r in ex.map(one, entries):
+            res['cmds'].append(r['cmd'])
+            if rs is None:
+                res['notes'].append('%s: compile error %s' % (entry, (r['out'] + r['err'])[-300:]))
+                res['obligations'].append(dict(id=entry, name='L-' + entry[6:], kind='support', status='undecided', description=entry, loc=os.path.basename(src), solver='', secs=0, real=real, job=job['name']))
+                continue
+            st, solver, secs, desc, trace = 'undecided', '', 0, entry, None
+            for sname, rr in rs.items():
+                p = rr['parsed']
+                if p is None or p['status'] not in ('success', 'failure'):
+                    continue
+                res['cmds'].append(rr['cmd'])
+                fails = [x for x in p['props'] if x['status'] == 'FAILURE']
+                asserts = [x for x in p['props'] if x.get('description', '').startswith('L-' + entry[6:] + ':')]
+                if asserts:
+                    desc = asserts[0]['description']
+                st = 'failed' if fails else 'proved'
+                if fails:
+                    trace = fails[0].get('trace')
+                solver, secs = sname, rr['secs']
+                break
+            o = dict(id=entry, name='L-' + entry[6:], kind='support', status=st, description=desc[:200], loc=os.path.basename(src),
+                     solver=solver, secs=secs, real=real, job=job['name'])
+            if trace:
+                o['trace'] = trace
+            res['obligations'].append(o)
+    sts = [o['status'] for o in res['obligations']]
+    res['status'] = 'failed' if 'failed' in sts else ('undecided' if 'undecided' in sts or not sts else 'proved')
+    res['canary'] = dict(seen=True, failed=True)
+    res['secs'] = time.time() - t0
+    return res
+
+
 def run_job(job, tier='quick', log=print):
+    if job.get('kind') == 'lemma':
+        return run_lemma_job(job, tier)
     t0 = time.time()
     res = dict(job=job['name'], status='error', obligations=[], notes=[], cmds=[], secs=0)
     try:
@@ -281,7 +340,7 @@ def run_job(job, tier='quick', log=print):
         return res
     res['meta'] = dict(functions=meta['functions'], fired=meta['fired'])
     real = job.get('real', 'double')
-    defines = ['VP_REAL=' + real] + job.get('defines', []) + (['VP_AF'] if job.get('af') and not job.get('bp') else [])
+    defines = ['VP_REAL=' + real, 'VP_REAL_IS_' + real] + job.get('defines', []) + (['VP_AF'] if job.get('af') and not job.get('bp') else [])
     entry = job['entry']
     gb, r = B1.compile_goto(cfile, OUT, entry, defines, [PRELUDE, ROOT])
     res['cmds'].append(r['cmd'])
@@ -297,6 +356,10 @@ def run_job(job, tier='quick', log=print):
         return res
     solvers = job.get('solvers', ['cadical', 'cvc5'])
     timeout = job.get('timeout', {}).get(tier, 300 if tier == 'quick' else 1800)
+    if job.get('split') == 'always':
+        timeout = 1
+    elif job.get('split', 'auto') == 'auto':
+        timeout = min(timeout, job.get('full_timeout', 100))
     members = [dict(label=s, igb=igb, solver=s, extra=job.get('cbmc_flags', [])) for s in solvers]
     # a second binary without the canary, run with --stop-on-fail: finds ONE failing obligation fast even
     # when some other obligation is too hard to decide (a failing obligation must not hide behind a timeout)
@@ -342,6 +405,15 @@ def run_job(job, tier='quick', log=print):
         res['status'] = 'failed' if res['obligations'] else 'undecided'
         res['secs'] = time.time() - t0
         return res
+    if not verdicts and job.get('split', 'auto') in ('auto', 'always'):
+        # split mode: each contract-level property on its own, the support properties together
+        st = job.get('timeout', {}).get(tier, 300 if tier == 'quick' else 1800)
+        props, notes = B1.split_run(igb, solvers, st, workers=job.get('split_workers', 6), object_bits=job.get('object_bits', 12), extra=job.get('cbmc_flags', []))
+        res['notes'] = [n for n in res['notes'] if 'no answer' not in n] + ['split mode (one run per contract-level property)'] + notes
+        res['cmds'].append('cbmc %s --json-ui --object-bits %d %s --trace --property <id> {--cvc5 | --sat-solver cadical}   # once per contract-level property' % (igb, job.get('object_bits', 12), ' '.join(B1.CHECK_FLAGS)))
+        if props is not None:
+            verdicts['split'] = (dict(props=[dict(p, status=p['status']) for p in props], messages=[], status='split'), 0)
+            split_meta = dict((p['property'], p) for p in props)
     if not verdicts:
         res['status'] = 'undecided'
         res['secs'] = time.time() - t0
@@ -352,11 +424,13 @@ def run_job(job, tier='quick', log=print):
         for pr in p['props']:
             d = byid.setdefault(pr['property'], dict(id=pr['property'], description=pr.get('description', ''),
                                                      sourceLocation=pr.get('sourceLocation', {}), verdicts={}, trace=None))
-            d['verdicts'][s] = pr['status']
+            d['verdicts'][pr.get('solver') or s] = pr['status']
+            if pr.get('secs') is not None and s == 'split':
+                secs = pr['secs']
             if pr['status'] == 'FAILURE' and pr.get('trace') and d['trace'] is None:
                 d['trace'] = pr['trace']
                 d['trace_solver'] = s
-            d.setdefault('secs', {})[s] = secs
+            d.setdefault('secs', {})[pr.get('solver') or s] = secs
     canary_seen = False
     canary_failed = False
     n_base = n_step = 0
